@@ -139,6 +139,16 @@ def gen_ctu_case(rng):
     return gen_ctu_fields(rng, rng.choice([0.0, 0.15, 0.5]))
 
 
+def gen_ctucfgs_case(rng):
+    """one source, 1-3 configurations, each with its own CTU summary"""
+    n = rng.choice([1, 2, 2, 3])
+    p = rng.choice([0.0, 0.0, 0.15])
+    out = [n]
+    for _ in range(n):
+        out += gen_ctu_fields(rng, p, nf=rng.randint(0, 2), nn=rng.randint(0, 2))
+    return out
+
+
 def gen_uu_case(rng):
     n = rng.randint(0, 3)
     p = rng.choice([0.0, 0.15, 0.5])
@@ -227,18 +237,36 @@ def gen_project(rng):
             body[s].append("int f%d(int *p) { return *(p + %d); }" % (i, arg))
         else:
             body[s].append("int f%d(int *p) { (void)p; return 0; }" % i)
+    multicfg = rng.random() < 0.5      # some sources are analysed under several preprocessor configurations (no -D is given)
+
+    def call_stmt(t):
+        k = rng.random()
+        if k < 0.35:
+            return "f%d(0);" % t
+        if k < 0.6:
+            return "int x; f%d(&x);" % t
+        if k < 0.85:
+            return "int a[%d]; a[0] = 0; f%d(a);" % (rng.choice([2, 4, 16]), t)
+        return "int y = 1; f%d(&y);" % t
+
+    ncfg = 0
     for j in range(ncall):
         s = rng.choice(srcs)
         t = rng.randrange(0, nfun)
-        k = rng.random()
-        if k < 0.35:
-            body[s].append("void c%d(void) { f%d(0); }" % (j, t))
-        elif k < 0.6:
-            body[s].append("void c%d(void) { int x; f%d(&x); }" % (j, t))
-        elif k < 0.85:
-            body[s].append("void c%d(void) { int a[%d]; a[0] = 0; f%d(a); }" % (j, rng.choice([2, 4, 16]), t))
+        if multicfg and rng.random() < 0.6:
+            # the call site differs per configuration; a helper may be called in one configuration only
+            ncfg += 1
+            macro = rng.choice(["ALT", "LEGACY_API", "CFG%d" % j])
+            extra = ("u%d(); " % rng.randrange(0, nunused)) if nunused and rng.random() < 0.5 else ""
+            a, b = "%s%s" % (extra, call_stmt(t)), call_stmt(rng.randrange(0, nfun))
+            if rng.random() < 0.5:
+                a, b = b, a
+            if rng.random() < 0.3:
+                body[s].append("void c%d(void) {\n#ifdef %s\n    %s\n#endif\n}" % (j, macro, a))
+            else:
+                body[s].append("void c%d(void) {\n#ifdef %s\n    %s\n#else\n    %s\n#endif\n}" % (j, macro, a, b))
         else:
-            body[s].append("void c%d(void) { int y = 1; f%d(&y); }" % (j, t))
+            body[s].append("void c%d(void) { %s }" % (j, call_stmt(t)))
     for j in range(nunused):
         body[rng.choice(srcs)].append("void u%d(void) { }" % j)
     used = [j for j in range(ncall) if rng.random() < 0.8]
@@ -256,7 +284,7 @@ def gen_project(rng):
     if d is not None:
         opts.append("--max-ctu-depth=%d" % d)
     nfwd = sum(1 for r, _ in roles if r == "fwd")
-    shape = "%s,src%d,fwd%d,depth%s" % ("cpp" if cpp else "c", nsrc, min(nfwd, 3), d if d is not None else "dflt")
+    shape = "%s,src%d,fwd%d,depth%s,cfgsplit%d" % ("cpp" if cpp else "c", nsrc, min(nfwd, 3), d if d is not None else "dflt", min(ncfg, 3))
     return files, srcs, opts, shape
 
 
@@ -276,6 +304,15 @@ WITNESS_QUOTE = ({'h"x.h': "void g(int *q);\n",
 WITNESS_NONASCII = ({"h.h": "void g(int *q);\n",
                      "\u00e4.c": '#include "h.h"\nvoid caller(void) {\n    g(0);\n}\n',
                      "c.c": '#include "h.h"\nvoid g(int *q) {\n    *q = 1;\n}\n'}, ["\u00e4.c", "c.c"], [], "witness-nonascii")
+
+
+# one source analysed under two configurations (no -D): the null call and the call of helper() exist only under LEGACY_API
+WITNESS_MULTICFG = ({"api.h": "void use(int *p);\nvoid fill(int *p);\nvoid helper(void);\n",
+                     "caller.c": '#include "api.h"\nstatic void always(void)\n{\n    int buf[2] = {0, 0};\n    fill(buf);\n}\nstatic void caller(void)\n{\n'
+                                 '#ifdef LEGACY_API\n    use(0);\n    helper();\n#else\n    int v = 0;\n    use(&v);\n#endif\n}\n'
+                                 'int main(void)\n{\n    always();\n    caller();\n    return 0;\n}\n',
+                     "callee.c": '#include "api.h"\nvoid use(int *p)\n{\n    *p = 1;\n}\nvoid fill(int *p)\n{\n    p[0] = 1;\n    p[1] = 2;\n}\nvoid helper(void)\n{\n}\n'},
+                    ["caller.c", "callee.c"], ["--enable=style,unusedFunction"], "witness-multicfg")
 
 
 def xed(line):
